@@ -23,17 +23,22 @@ PROPERTY = "C11"
 LEVEL = "exploration"
 RULE = (
     "case = (spectrum-multiplicity vector, scan offset, folds 2..6, test_fdr in {0.13,0.26,0.34,0.51}, estimator "
-    "(linear on the key feature / linear on all features), one or two files); every (file, fold) of a returned result "
+    "(linear on the key feature / linear on all features / decision_function+predict_proba), one or two files; plus the "
+    "dyadic thresholds 0.125/0.25/0.5 where a q-value can equal the threshold exactly; every (file, fold) of a returned result "
     "is one checked calibration. Non-trivial iff the run returned model scores (not an explicit error, untrained "
     "model or best-feature fallback); plus the impossible-FDR family (test_fdr 1e-4) where brew must raise"
 )
 ASSUMPTIONS = [
-    "evaluation FDRs are never a ratio of small integers, so acceptance is unambiguous under float32 storage",
+    "evaluation FDRs are either no ratio of small integers or exactly representable dyadic fractions, so acceptance "
+    "(q <= FDR) is unambiguous under float32 storage, also at the boundary",
     "folds with t <= d are outside the statement's quantifier: counted and skipped",
     "fold membership and raw model output are recovered from the recording estimator (public Model API)",
 ]
 
 FDRS = (0.13, 0.26, 0.34, 0.51)
+# exactly representable thresholds: a q-value (D+1)/T equal to one of them is exact in float32 as well, so
+# "accepted at q <= FDR" is unambiguous *at* the boundary
+DYADIC = (0.125, 0.25, 0.5)
 
 
 def build(case, work):
@@ -67,7 +72,7 @@ def check_case(case, acc):
         frames, paths = build(case, work)
         dsets = [make_dataset(df, p, features=["f_key", "f2"], spectrum=spec, write=False)
                  for (df, spec), p in zip(frames, paths)]
-        model = make_model("linear", first_only=case["first_only"])
+        model = make_model(case.get("est", "linear"), first_only=case["first_only"])
         try:
             psms, models, scores, descs = mokapot.brew(dsets, model=model, test_fdr=case["fdr"], folds=case["folds"],
                                                        max_workers=1, rng=case.get("seed", 1))
@@ -167,6 +172,11 @@ def run(ctx):
                 for fdr in FDRS:
                     for fo in (True, False):
                         cases.append(dict(mults=list(mv), offset=off, folds=folds, fdr=fdr, first_only=fo))
+            for fdr in DYADIC:
+                for folds in (2, 3, 4):
+                    cases.append(dict(mults=list(mv), offset=off, folds=folds, fdr=fdr, first_only=True))
+            for fdr in (0.13, 0.25):
+                cases.append(dict(mults=list(mv), offset=off, folds=3, fdr=fdr, first_only=True, est="both"))
             for files in (2,):
                 for fdr in FDRS:
                     cases.append(dict(mults=list(mv), offset=off, folds=3, fdr=fdr, first_only=True, files=files))
